@@ -74,6 +74,10 @@ structure ChunkMeta where
   hasDeprecated     : Bool                -- chunk Statistics.Min / Max (deprecated) non-empty
   deriving DecidableEq, Repr
 
+/-- `src.chunk.ColumnIndexOffset != 0`: the chunk has a column index (a column written with
+    `SkipPageBounds` has none) -/
+def ChunkMeta.hasColumnIndex (c : ChunkMeta) : Bool := c.columnIndexOffset != 0
+
 /-- dynamic type of a `ColumnChunk` (the type switch of `columnOrientedChunk`) -/
 inductive Chunk where
   | file (m : ChunkMeta)   -- *FileColumnChunk
@@ -222,7 +226,7 @@ end
 
 /-! ## MIRROR: copy eligibility (writer_copy.go) -/
 
-/-- writer_copy.go:369-402 `encodingStatsMatch` loop; `saw` = sawDict -/
+/-- writer_copy.go:377-410 `encodingStatsMatch` loop; `saw` = sawDict -/
 def encodingStatsLoop (d : DstCol) : List EncStat → Bool → Bool
   | [], saw => d.dict == saw
   | s :: rest, saw =>
@@ -234,7 +238,7 @@ def encodingStatsLoop (d : DstCol) : List EncStat → Bool → Bool
       else encodingStatsLoop d rest saw
     else false
 
-/-- writer_copy.go:369-402 -/
+/-- writer_copy.go:377-410 -/
 def encodingStatsMatch (stats : List EncStat) (d : DstCol) : Bool :=
   if stats.isEmpty then false else encodingStatsLoop d stats false
 
@@ -243,7 +247,7 @@ def encodingStatsMatch (stats : List EncStat) (d : DstCol) : Bool :=
 def bloomSize (bitsPerValue numValues : Nat) : Nat :=
   32 * ((((numValues * bitsPerValue) + 7) / 8 + 31) / 32)
 
-/-- writer_copy.go:417-442 `bloomFilterIsCopyable` (called only with a configured filter) -/
+/-- writer_copy.go:425-450 `bloomFilterIsCopyable` (called only with a configured filter) -/
 def bloomFilterIsCopyable (d : DstCol) (bpv : Nat) (c : ChunkMeta) : Bool :=
   if c.bloomOffset = 0 ∨ c.bloomLength ≤ 0 then false
   else if d.filterCompressed then false
@@ -257,12 +261,13 @@ def bloomFilterIsCopyable (d : DstCol) (bpv : Nat) (c : ChunkMeta) : Bool :=
 def PageInfo.trivialStats (p : PageInfo) : Bool :=
   !p.nullPage && p.nullCount == 0 && p.minLen == 0 && p.maxLen == 0
 
-/-- REPAIRED variant only — writer_copy.go:261-365 `statisticsSettingsMatch` and
+/-- REPAIRED variant only — writer_copy.go:263-373 `statisticsSettingsMatch` and
     `columnIndexSizeLimitOf` (added by the F9 repair; `d.indexLimit` is the latter's result): the
     destination's statistics settings must be seen to hold on the source chunk. -/
 def statisticsSettingsMatch (d : DstCol) (c : ChunkMeta) : Bool :=
-  -- chunk-level bounds (SkipPageBounds)
-  if !d.pageBounds && c.hasMinMax then false
+  -- column index and chunk-level bounds (SkipPageBounds)
+  if d.pageBounds != c.hasColumnIndex then false
+  else if !d.pageBounds && c.hasMinMax then false
   else if d.pageBounds && !c.hasMinMax && decide (c.numValues > c.nullCount) then false
   -- deprecated Min/Max (DeprecatedDataPageStatistics)
   else if !d.deprecatedStats && c.hasDeprecated then false
@@ -274,7 +279,7 @@ def statisticsSettingsMatch (d : DstCol) (c : ChunkMeta) : Bool :=
   else if c.pages.any (fun p => if d.pageStats then !p.hasStats && !p.trivialStats else p.hasStats) then false
   else true
 
-/-- writer_copy.go:202-246 `columnChunkIsCopyable` (lines 240-245 exist in the repaired variant only) -/
+/-- writer_copy.go:202-247 `columnChunkIsCopyable` (lines 240-245 exist in the repaired variant only) -/
 def columnChunkIsCopyable (v : Variant) (d : DstCol) (c : ChunkMeta) : Bool :=
   if c.encrypted then false
   else if d.encrypted then false
@@ -408,7 +413,7 @@ def Step.out (v : Variant) : Step α → List α
 
 def outputOf (v : Variant) (steps : List (Step α)) : List α := steps.flatMap (Step.out v)
 
-/-- copyPathCounter increments (writer_copy.go:515: one per copied column chunk) -/
+/-- copyPathCounter increments (writer_copy.go:529: one per copied column chunk) -/
 def copyCount (steps : List (Step α)) : Nat :=
   (steps.map fun s => match s with | .verbatim rg => rg.chunks.length | _ => 0).sum
 
@@ -416,7 +421,7 @@ def copyCount (steps : List (Step α)) : Nat :=
 def reencodeCount (steps : List (Step α)) : Nat :=
   (steps.map fun s => match s with | .reencode _ => 1 | _ => 0).sum
 
-/-- writer_copy.go:503-509: the bloom filter is carried over only when the destination column is
+/-- writer_copy.go:517-523: the bloom filter is carried over only when the destination column is
     configured with one; everything else of the chunk is spliced / copied as is. -/
 def copied (d : DstCol) (c : ChunkMeta) : ChunkMeta :=
   match d.filterBpv with
@@ -442,7 +447,7 @@ structure ConformsCore (g : DstCfg) (d : DstCol) (c : ChunkMeta) : Prop where
   pages     : ∀ p ∈ c.pages, p.ptype = d.pageType ∧
                 (p.encoding = d.encoding ∨ (d.dict = true ∧ p.encoding = 0))
   dict      : c.hasDictPage = d.dict
-  index     : c.columnIndexOffset ≠ 0 ∧ c.offsetIndexOffset ≠ 0
+  index     : c.offsetIndexOffset ≠ 0
   bloom     : match d.filterBpv with
               | none => c.bloomHeader = none
               | some bpv => ∃ h, c.bloomHeader = some h ∧ h.splitBlock = true ∧ h.xxhash = true ∧
@@ -456,6 +461,7 @@ structure ConformsStats (d : DstCol) (c : ChunkMeta) : Prop where
                  else p.hasStats = false
   indexLimit : d.indexLimit > 0 →
                  ∀ p ∈ c.pages, p.minLen ≤ d.indexLimit ∧ p.maxLen ≤ d.indexLimit
+  colIndex   : c.hasColumnIndex = d.pageBounds   -- a column index iff page bounds are written
   noBounds   : d.pageBounds = false → c.hasMinMax = false
   bounds     : d.pageBounds = true → c.numValues > c.nullCount → c.hasMinMax = true
   noDeprec   : d.deprecatedStats = false → c.hasDeprecated = false
